@@ -23,6 +23,7 @@ mod vmgen;
 mod vmrun;
 mod c17;
 mod c15;
+mod c04;
 
 use std::path::PathBuf;
 
@@ -36,6 +37,7 @@ pub struct Args {
 
 fn main() {
     let argv: Vec<String> = std::env::args().collect();
+    if argv.len() == 3 && argv[1] == "c04-worker" { c04::worker(&argv[2]); return; }
     if argv.len() < 3 && !(argv.len() == 2 && (argv[1] == "dump-stdlib" || argv[1] == "c10-witness")) {
         eprintln!("usage: harness gen <Cxx> --seed S --n N --tier quick|thorough --out DIR");
         std::process::exit(2);
@@ -77,6 +79,7 @@ fn main() {
         ("replay", "VM") => vmrun::replay(&a),
         ("gen", "C17") => c17::gen(&a),
         ("gen", "C15") => c15::gen(&a),
+        ("gen", "C04") => c04::gen(&a),
         _ => { eprintln!("unknown command/property"); std::process::exit(2); }
     }
 }
